@@ -13,6 +13,7 @@ Init == e \in Eps /\ p \in Pas /\ l \in Laws /\ f \in Fixes /\ m \in Modes /\ cx
         /\ (fr \in {"nearleft", "nearbottom", "largeleft", "largebottom"} => (f = "none" /\ m \in {"bilinear", "mean", "median"} /\ e <= 50 /\ st = "near"))
         /\ (fr = "large" => (f = "none" /\ m = "bilinear" /\ e <= 50 /\ st = "near"))
         /\ (m \in {"mean", "median"} => f = "none")
+        /\ (m = "linear_geometry" => (f = "none" /\ fr = "square" /\ st = "near" /\ e <= 50))
 Observe == ~done /\ done' = TRUE /\ UNCHANGED <<e, p, l, f, m, cx, fr, st>>
            /\ (Emit => PrintT(<<"GEN", ToJson([eps |-> e, pa |-> p, law |-> l, fix |-> f, mode |-> m, centre |-> cx, frame |-> fr, start |-> st])>>))
 Spec == Init /\ [][Observe]_vars
